@@ -276,7 +276,17 @@ pub fn run_calls(
             }
             WKind::UfmtChars => {
                 for ch in t.chars() {
+                    // ufmt-write 0.1.0's default `uWrite::write_char` (which the library's Writer
+                    // inherits) builds its scratch buffer with mem::uninitialized. Miri rejects
+                    // that; it is the dependency's code, not the library's, so under Miri the
+                    // character is encoded here instead.
+                    #[cfg(not(miri))]
                     ufmt::uwrite!(w, "{}", ch)?;
+                    #[cfg(miri)]
+                    {
+                        let mut b = [0u8; 4];
+                        w.write_str(ch.encode_utf8(&mut b))?;
+                    }
                 }
             }
             WKind::FmtChars => {
